@@ -11,6 +11,12 @@ pub fn path(tcx: TyCtxt<'_>, def: DefId) -> String {
     full(|| tcx.def_path_str(def))
 }
 
+/// Name of an item, or an empty string for items that have none (anonymous
+/// constants, closures, impl blocks); `TyCtxt::item_name` aborts on those.
+pub fn name_of(tcx: TyCtxt<'_>, def: DefId) -> String {
+    tcx.opt_item_name(def).map(|n| n.to_string()).unwrap_or_default()
+}
+
 pub fn full<T>(f: impl FnOnce() -> T) -> T {
     with_resolve_crate_name!(with_no_visible_paths!(with_no_trimmed_paths!(f())))
 }
@@ -132,7 +138,7 @@ pub fn fn_ref_j<'tcx>(
 ) -> J {
     let mut o = J::obj();
     o.put("path", J::s(path(tcx, def)));
-    o.put("name", J::s(tcx.item_name(def).to_string()));
+    o.put("name", J::s(name_of(tcx, def)));
     o.put("args", args_j(tcx, args));
     o.put("local", J::Bool(def.is_local()));
     if let Some(ai) = tcx.opt_associated_item(def) {
